@@ -5,7 +5,9 @@
 //! points to one of up to two real `sg-whitelist`s (the minter admin can swap them), all under cw-multi-test; against
 //! `LP.Airdrop` (Lean). All messages are raw JSON (`serde_json::json!`).
 //! Function-level correspondence: `ethereum_verify::{verify_ethereum_text, decode_address, get_recovery_param}`,
-//! `str::replace`, `str::contains`, `hex::decode`, Keccak-256.
+//! `str::replace`, `str::contains`, `hex::decode`, Keccak-256, and (round 5) `Api::secp256k1_recover_pubkey` /
+//! `Api::secp256k1_verify` / `ethereum_address_raw` against the Lean secp256k1 (`LP.Secp`): line kind `secp`, plus `rc=` on
+//! every claim / verify line (the model's verdict with `realCrypto`, from the raw bytes, equals its witnessed verdict).
 //!
 //! Signatures are produced with `k256` + `sha3`. The per-claim witness handed to the model (digest, recovered
 //! public key, verify result) is computed by independent PROTOCOL code: hand-written secp256k1 public-key recovery
@@ -442,6 +444,14 @@ struct S {
     header: String,
     log: Vec<String>,
     pending: Option<(String, String)>,
+    /// every (digest, signature bytes) pair that went through a `claim` or `verify` op: replayed at the end as `secp` lines
+    seen: BTreeSet<(Vec<u8>, Vec<u8>)>,
+}
+thread_local! {
+    /// pairs for which a claim line already asked the model for the `realCrypto` evaluation (`rce=1`)
+    static RC_DONE: std::cell::RefCell<BTreeSet<(Vec<u8>, Vec<u8>)>> = std::cell::RefCell::new(BTreeSet::new());
+    /// claim lines: (cheap, always evaluated; evaluated with the full secp256k1 computation; skipped)
+    static RCE: std::cell::Cell<(u64, u64, u64)> = std::cell::Cell::new((0, 0, 0));
 }
 
 impl S {
@@ -460,6 +470,7 @@ impl S {
     fn exec_inner(&mut self, line: &str) -> Result<(String, String, Option<(String, String)>), String> {
         let op = line.split_whitespace().next().unwrap_or("").to_string();
         let mut finding: Option<(String, String)> = None;
+        let mut seen_add: Option<(Vec<u8>, Vec<u8>)> = None;
         let bad = |p: &str, what: String| Some((format!("sg-eth-airdrop/{op}/{p}"), format!("{what} on `{line}`")));
         let okerr = |b: bool| if b { "ok" } else { "err" };
         let out: (String, String) = match op.as_str() {
@@ -543,6 +554,9 @@ impl S {
                 let text = w.template.replace("{wallet}", &sender);
                 let sig_bytes = unhex(sig.as_bytes());
                 let wit = witness_for(&text, sig_bytes.as_deref());
+                if let (Some(h), Some(sb)) = (wit.h, sig_bytes.as_ref()) {
+                    seen_add = Some((h.to_vec(), sb.clone()));
+                }
                 let before = w.snap();
                 let r = w.mw.exec(&sender, &air, &json!({"claim_airdrop": {"eth_address": eth, "eth_sig": sig}}), &[]);
                 let ok = r.is_ok();
@@ -644,9 +658,28 @@ impl S {
                     );
                 }
                 let e = w.eligible(&eth).unwrap_or(false);
+                // `rce`: should the model ALSO decide this claim with `realCrypto` (Lean secp256k1 from the raw bytes: ≈ 3 double
+                // scalar multiplications when the claim gets as far as the signature)? Always when that is cheap (not listed,
+                // not hex, not 65 bytes); otherwise once per distinct (digest, signature) pair for every pair of a claim the
+                // real contract ACCEPTED, and for 1 in 16 of the other pairs (chosen by a hash of the pair). Sampling only:
+                // with `rce=0` the model prints `rc=1` without evaluating.
+                let rce = match (&sig_bytes, wit.h) {
+                    (Some(sb), Some(h)) if sb.len() == 65 && w.listed.contains(&eth) => {
+                        let pair = (h.to_vec(), sb.clone());
+                        let pick = ok || keccak(&[&h[..], &sb[..]].concat())[0] < 16 || std::env::var("C16_RC_ALL").is_ok();
+                        pick && RC_DONE.with(|m| m.borrow_mut().insert(pair))
+                    }
+                    _ => {
+                        RCE.with(|c| c.set((c.get().0 + 1, c.get().1, c.get().2)));
+                        true
+                    }
+                };
+                if sig_bytes.as_ref().map(|sb| sb.len() == 65).unwrap_or(false) && w.listed.contains(&eth) {
+                    RCE.with(|c| c.set(if rce { (c.get().0, c.get().1 + 1, c.get().2) } else { (c.get().0, c.get().1, c.get().2 + 1) }));
+                }
                 (
-                    format!("{line}{}", wit.render()),
-                    format!("{} b={} s={} m={} e={} ## c={} n={}", okerr(ok), b, w.bal(&sender), w.has_member(&sender) as u8, e as u8, w.count(&eth), w.num_members()),
+                    format!("{line}{} rce={}", wit.render(), rce as u8),
+                    format!("{} b={} s={} m={} e={} rc=1 ## c={} n={}", okerr(ok), b, w.bal(&sender), w.has_member(&sender) as u8, e as u8, w.count(&eth), w.num_members()),
                 )
             }
             "exec_raw" => {
@@ -837,6 +870,9 @@ impl S {
                 let sig = kv_b(line, "sig").ok_or("sig")?;
                 let signer = kv_s(line, "signer").ok_or("signer")?;
                 let wit = witness_for(&text, Some(&sig));
+                if let Some(h) = wit.h {
+                    seen_add = Some((h.to_vec(), sig.clone()));
+                }
                 let deps = mock_dependencies();
                 let r = ethereum_verify::verify_ethereum_text(deps.as_ref(), &text, &sig, &signer);
                 let o = match r {
@@ -844,14 +880,56 @@ impl S {
                         if b && !indep_valid(&text, &hex::encode(&sig), &signer) {
                             finding = bad("invalid-signature-accepted", "verify_ethereum_text returned true for a signature the independent check rejects".into());
                         }
-                        format!("ok {}", b as u8)
+                        format!("ok {} rc=1", b as u8)
                     }
-                    Err(_) => "err".into(),
+                    Err(_) => "err rc=1".into(),
                 };
                 (format!("{line}{}", wit.render()), o)
             }
+            "secp" => {
+                // round 5: the REAL `Api::secp256k1_recover_pubkey` / `secp256k1_verify` / `ethereum_address_raw` on raw bytes;
+                // the Lean driver computes the same values with `LP.Secp` (no witness on this line)
+                use cosmwasm_std::Api;
+                let hash = kv_b(line, "hash").ok_or("hash")?;
+                let sig = kv_b(line, "sig").ok_or("sig")?;
+                let pk = match kv(line, "pk").ok_or("pk")? {
+                    "-" => None,
+                    t => Some(tok_bytes(t).ok_or("pk")?),
+                };
+                let deps = mock_dependencies();
+                let b01e = |r: Result<bool, cosmwasm_std::VerificationError>| match r {
+                    Ok(true) => "1",
+                    Ok(false) => "0",
+                    Err(_) => "err",
+                };
+                let o = match sig.split_last() {
+                    None => "err".to_string(),
+                    Some((v, rs)) => {
+                        let rid = ethereum_verify::get_recovery_param(*v).unwrap_or(*v);
+                        let vp = match &pk {
+                            None => "-",
+                            Some(k) => b01e(deps.api.secp256k1_verify(&hash, rs, k)),
+                        };
+                        match deps.api.secp256k1_recover_pubkey(&hash, rs, rid) {
+                            Err(_) => format!("rec=err addr=- ver=- vp={vp}"),
+                            Ok(key) => {
+                                let addr = ethereum_verify::ethereum_address_raw(&key).map(|a| hx(&a)).unwrap_or_else(|_| "-".into());
+                                // independent route (hand-written ecrecover on k256 group arithmetic) must agree as well
+                                if hash.len() == 32 && recover_manual(hash.as_slice().try_into().unwrap(), rs, rid).as_deref() != Some(&key[..]) {
+                                    finding = bad("recover-differs-from-independent-route", format!("deps.api recovered {} but the hand-written ecrecover did not", hx(&key)));
+                                }
+                                format!("rec=ok key={} addr={} ver={} vp={vp}", hx(&key), addr, b01e(deps.api.secp256k1_verify(&hash, rs, &key)))
+                            }
+                        }
+                    }
+                };
+                (line.to_string(), o)
+            }
             _ => return Err(format!("bad op {op}")),
         };
+        if let Some(x) = seen_add {
+            self.seen.insert(x);
+        }
         Ok((out.0, out.1, finding))
     }
 }
@@ -1142,6 +1220,13 @@ fn new_key(rng: &mut Rng, style: u64) -> Key {
                 _ => format!("0x{lower}"),
             };
             let _ = addr;
+            PUBKEYS.with(|m| {
+                let mut m = m.borrow_mut();
+                if m.len() < 64 {
+                    m.push(pk.as_bytes().to_vec());
+                    m.push(sk.verifying_key().to_encoded_point(true).as_bytes().to_vec());
+                }
+            });
             return Key { sk, eth };
         }
     }
@@ -1158,6 +1243,8 @@ fn sign(k: &Key, text: &str, raw_v: bool) -> Vec<u8> {
     v
 }
 thread_local! {
+    /// public keys (uncompressed, compressed) of the first generated keys: `pk=` of `secp` lines
+    static PUBKEYS: std::cell::RefCell<Vec<Vec<u8>>> = std::cell::RefCell::new(Vec::new());
     static SIGNED: std::cell::RefCell<BTreeMap<Vec<u8>, (Vec<u8>, [u8; 20], [u8; 32])>> = std::cell::RefCell::new(BTreeMap::new());
 }
 /// `<address of the key>:<digest of the text>` if the byte string `sig_hex` decodes to is a signature this harness produced
@@ -1628,9 +1715,260 @@ fn signed(k: &Key, tpl: &str, w: &str) -> String {
     hex::encode(sign(k, &tpl.replace("{wallet}", w), false))
 }
 
+// ------------------------------------------------------------------------------------------------ secp256k1 cross-validation
+
+/// class label of a `verify` output (without the model-agreement bit `rc=`, which is always 1 on this side)
+fn vcls(o: &str) -> String {
+    o.replace(" rc=1", "").replace(' ', "")
+}
+fn secp_line(hash: &[u8], sig: &[u8], pk: Option<&[u8]>) -> String {
+    format!("secp hash={} sig={} pk={}", hx(hash), hx(sig), pk.map(hx).unwrap_or_else(|| "-".into()))
+}
+/// `rec-ok|rec-err`, `ver…`, `vp…` of a `secp` output line (class labels)
+fn secp_class(o: &str) -> String {
+    if o == "err" {
+        return "empty".into();
+    }
+    let rec = if kv(o, "rec") == Some("err") { "rec-err" } else { "rec-ok" };
+    format!("{rec}:ver{}:vp{}", kv(o, "ver").unwrap_or("?"), kv(o, "vp").unwrap_or("?"))
+}
+fn be32(x: &k256::U256) -> Vec<u8> {
+    use k256::elliptic_curve::bigint::Encoding;
+    x.to_be_bytes().to_vec()
+}
+/// Function-level cross-validation of the Lean secp256k1 (`LP.Secp`) against `deps.api`: hand-made edge cases, then every
+/// (digest, signature) pair that went through a `claim` / `verify` op of this run.
+fn secp_stream(ses: &mut Session, sut: &mut S, rng: &mut Rng) {
+    use k256::elliptic_curve::Curve;
+    ses.require("secp:edge:valid-v0or1:rec-ok:ver1:vp1");
+    ses.require("secp:edge:identity-key:rec-err");
+    ses.require("secp:edge:pk-compressed:rec-ok:ver1:vp1");
+    ses.require("secp:edge:pk-other-key:rec-ok:ver1:vp0");
+    ses.require("secp:edge:r-not-on-curve:rec-err");
+    ses.require("secp:edge:high-s:rec-ok:ver1:vp1");
+    ses.require("secp:stream:rec-ok:ver1");
+    ses.require("secp:stream:rec-err");
+    let n = k256::Secp256k1::ORDER;
+    let one = k256::U256::ONE;
+    let p_bytes = unhex(b"fffffffffffffffffffffffffffffffffffffffffffffffffffffffefffffc2f").unwrap();
+    let n_bytes = be32(&n);
+    let max_bytes = vec![0xffu8; 32];
+    let zero = vec![0u8; 32];
+    let mut one_b = vec![0u8; 32];
+    one_b[31] = 1;
+    let n_m1 = be32(&n.wrapping_sub(&one));
+    let n_p1 = be32(&n.wrapping_add(&one));
+    let half = n.shr_vartime(1); // (n − 1) / 2: the largest low s
+    let half_b = be32(&half);
+    let half_p1 = be32(&half.wrapping_add(&one));
+    let mut p_m1 = p_bytes.clone();
+    p_m1[31] -= 1;
+
+    ses.begin_case(sut, &header("secp-edge", 0, false, 0, 0));
+    let step = |ses: &mut Session, sut: &mut S, label: &str, hash: &[u8], sig: &[u8], pk: Option<&[u8]>| -> String {
+        let o = ses.step(sut, &secp_line(hash, sig, pk));
+        ses.mark(format!("secp:edge:{label}:{}", secp_class(&o)));
+        o
+    };
+    let k = new_key(rng, 2);
+    let k2 = new_key(rng, 2);
+    let d = personal_digest("edge").to_vec();
+    let good = sign(&k, "edge", true);
+    let pk65 = k.sk.verifying_key().to_encoded_point(false).as_bytes().to_vec();
+    let pk33 = k.sk.verifying_key().to_encoded_point(true).as_bytes().to_vec();
+    let other65 = k2.sk.verifying_key().to_encoded_point(false).as_bytes().to_vec();
+    let with_v = |sig: &[u8], v: u8| {
+        let mut x = sig[..64].to_vec();
+        x.push(v);
+        x
+    };
+    let with_r = |sig: &[u8], r: &[u8]| {
+        let mut x = r.to_vec();
+        x.extend_from_slice(&sig[32..]);
+        x
+    };
+    let with_s = |sig: &[u8], sv: &[u8]| {
+        let mut x = sig[..32].to_vec();
+        x.extend_from_slice(sv);
+        x.push(sig[64]);
+        x
+    };
+    step(ses, sut, "valid-v0or1", &d, &good, Some(&pk65));
+    step(ses, sut, "pk-compressed", &d, &good, Some(&pk33));
+    step(ses, sut, "pk-other-key", &d, &good, Some(&other65));
+    // every interesting recovery byte (2, 3 = "x reduced" ids k256 knows but cosmwasm refuses; 27/28 mapped by the contract)
+    for v in [0u8, 1, 2, 3, 4, 26, 27, 28, 29, 30, 31, 35, 36, 128, 255] {
+        step(ses, sut, &format!("v{v}"), &d, &with_v(&good, v), Some(&pk65));
+    }
+    // the other encoding (r, n − s): same key with the flipped parity, ANOTHER key with the same parity
+    let hi = malleate(&good, true);
+    let hi_same_v = malleate(&good, false);
+    let (hi, hi_same_v) = if good[32] < 0x80 { (hi, hi_same_v) } else { (good.clone(), with_v(&good, good[64] ^ 1)) };
+    step(ses, sut, "high-s", &d, &hi, Some(&pk65));
+    step(ses, sut, "high-s-same-v", &d, &hi_same_v, Some(&pk65));
+    // scalar range
+    for (label, r) in [("r0", &zero), ("r1", &one_b), ("r-n-1", &n_m1), ("r-n", &n_bytes), ("r-n+1", &n_p1), ("r-p-1", &p_m1), ("r-p", &p_bytes), ("r-max", &max_bytes)] {
+        step(ses, sut, label, &d, &with_r(&good, r), Some(&pk65));
+        step(ses, sut, label, &d, &with_v(&with_r(&good, r), good[64] ^ 1), None);
+    }
+    for (label, sv) in [("s0", &zero), ("s1", &one_b), ("s-half", &half_b), ("s-half+1", &half_p1), ("s-n-1", &n_m1), ("s-n", &n_bytes), ("s-n+1", &n_p1), ("s-max", &max_bytes)] {
+        step(ses, sut, label, &d, &with_s(&good, sv), Some(&pk65));
+        step(ses, sut, label, &d, &with_v(&with_s(&good, sv), good[64] ^ 1), None);
+    }
+    // small r: about half of them are not abscissas of curve points
+    for r in 1u8..=40 {
+        let mut rb = vec![0u8; 32];
+        rb[31] = r;
+        let sig = with_r(&good, &rb);
+        let o = ses.step(sut, &secp_line(&d, &sig, None));
+        ses.mark(format!("secp:edge:{}:{}", if kv(&o, "rec") == Some("err") { "r-not-on-curve" } else { "r-small-on-curve" }, secp_class(&o)));
+    }
+    // the recovered key would be the identity: R = G, s = z  ⇒  Q = r⁻¹(s·R − z·G) = O
+    {
+        let g = AffinePoint::GENERATOR.to_encoded_point(false);
+        let gx = g.x().unwrap().to_vec();
+        let g_odd = g.y().unwrap()[31] & 1;
+        for text in ["identity-1", "identity-2", "identity-3"] {
+            let h = personal_digest(text);
+            let z = <Scalar as Reduce<U256>>::reduce_bytes(FieldBytes::from_slice(&h));
+            let mut sig = gx.clone();
+            sig.extend_from_slice(&z.to_repr());
+            sig.push(g_odd);
+            step(ses, sut, "identity-key", &h, &sig, Some(&pk65));
+            step(ses, sut, "identity-key-other-parity", &h, &with_v(&sig, g_odd ^ 1), None);
+        }
+    }
+    // lengths of the signature and of the hash
+    let mut long = good.clone();
+    long.extend_from_slice(&good);
+    for l in [0usize, 1, 2, 32, 33, 63, 64, 65, 66, 129, 130] {
+        let mut x = long[..l.min(long.len())].to_vec();
+        if l >= 2 {
+            let last = x.len() - 1;
+            x[last] = good[64]; // a valid recovery byte, so that the length check of `r ‖ s` decides
+        }
+        step(ses, sut, &format!("sig-len{l}"), &d, &x, Some(&pk65));
+    }
+    for l in [0usize, 1, 31, 33, 64] {
+        let mut h = d.clone();
+        h.resize(l, 0xab);
+        step(ses, sut, &format!("hash-len{l}"), &h, &good, Some(&pk65));
+    }
+    // hash values around the group order (z = hash mod n)
+    for (label, h) in [("hash-0", &zero), ("hash-1", &one_b), ("hash-n-1", &n_m1), ("hash-n", &n_bytes), ("hash-n+1", &n_p1), ("hash-max", &max_bytes)] {
+        step(ses, sut, label, h, &good, Some(&pk65));
+        // … and a genuine signature over such a digest
+        if let Ok((sg, rid)) = k.sk.sign_prehash_recoverable(h) {
+            let mut x = sg.to_bytes().to_vec();
+            x.push(rid.to_byte() + 27);
+            step(ses, sut, &format!("{label}-signed"), h, &x, Some(&pk33));
+        }
+    }
+    // public-key encodings
+    let mut off_curve = pk65.clone();
+    off_curve[64] ^= 1;
+    let mut tag5 = pk65.clone();
+    tag5[0] = 5;
+    let mut tag0 = pk65.clone();
+    tag0[0] = 0;
+    let mut neg33 = pk33.clone();
+    neg33[0] ^= 1; // 02 ↔ 03: the opposite point — ECDSA cannot tell them apart by x alone? it can: u2·(−Q) differs
+    let mut tag4_33 = pk33.clone();
+    tag4_33[0] = 4;
+    let mut tag2_65 = pk65.clone();
+    tag2_65[0] = 2;
+    let mut x_ge_p = vec![2u8];
+    x_ge_p.extend_from_slice(&p_bytes);
+    let mut x_ge_p65 = vec![4u8];
+    x_ge_p65.extend_from_slice(&p_bytes);
+    x_ge_p65.extend_from_slice(&pk65[33..]);
+    let mut y_plus_p = vec![4u8]; // (x, y) with y ≥ p is not canonical
+    y_plus_p.extend_from_slice(&pk65[1..33]);
+    y_plus_p.extend_from_slice(&max_bytes);
+    for (label, pk) in [
+        ("pk-off-curve", off_curve),
+        ("pk-tag5", tag5),
+        ("pk-tag0", tag0),
+        ("pk-opposite-point", neg33),
+        ("pk-tag4-33bytes", tag4_33),
+        ("pk-tag2-65bytes", tag2_65),
+        ("pk-x-ge-p", x_ge_p),
+        ("pk-x-ge-p-65", x_ge_p65),
+        ("pk-y-ge-p", y_plus_p),
+        ("pk-empty", vec![]),
+        ("pk-identity", vec![0u8]),
+        ("pk-64bytes", pk65[..64].to_vec()),
+        ("pk-66bytes", [&pk65[..], &[0u8][..]].concat()),
+        ("pk-32bytes", pk33[..32].to_vec()),
+        ("pk-34bytes", [&pk33[..], &[0u8][..]].concat()),
+    ] {
+        step(ses, sut, label, &d, &good, Some(&pk));
+    }
+    for x in 0u8..=16 {
+        // compressed keys with tiny abscissas: decompression fails for the non-residues
+        let mut pk = vec![2u8 + (x & 1)];
+        pk.extend_from_slice(&[0u8; 31]);
+        pk.push(x);
+        step(ses, sut, "pk-small-x", &d, &good, Some(&pk));
+    }
+    ses.end_case();
+
+    // every (digest, signature) pair this run put through a claim / verify op
+    let pks: Vec<Vec<u8>> = PUBKEYS.with(|m| m.borrow().clone());
+    let all: Vec<(Vec<u8>, Vec<u8>)> = sut.seen.iter().cloned().collect();
+    // In Lean a line costs ≈ 3–4 double scalar multiplications when a key is recovered, next to nothing otherwise: every pair
+    // that does not recover (wrong length, recovery byte, range, not on the curve) is replayed; of the recovering ones a
+    // sample (every k-th in the order of the digests, i.e. pseudo-random), sized to keep the quick tier within its time budget.
+    let recovers = |(h, sg): &(Vec<u8>, Vec<u8>)| -> bool {
+        (|| {
+            let (v, rs) = sg.split_last()?;
+            let h32: &[u8; 32] = h.as_slice().try_into().ok()?;
+            recover_manual(h32, rs, recid_of(*v)?)
+        })()
+        .is_some()
+    };
+    let (heavy, light): (Vec<&(Vec<u8>, Vec<u8>)>, Vec<&(Vec<u8>, Vec<u8>)>) = all.iter().partition(|x| recovers(x));
+    let cap = if std::env::var("C16_SECP_ALL").is_ok() { usize::MAX } else { ses.scale(600, 8_000) as usize };
+    let stride = ((heavy.len() + cap - 1) / cap.max(1)).max(1);
+    let mut picked: Vec<&(Vec<u8>, Vec<u8>)> = heavy.iter().step_by(stride).cloned().collect();
+    let n_heavy = picked.len();
+    picked.extend(light.iter().cloned());
+    ses.note(format!(
+        "secp stream: {} distinct (digest, signature) pairs went through claim / verify ops; replayed as `secp` lines: {} of the {} from which a key is recovered (every {}th), all {} others; claim lines: {:?} (cheap: always decided with realCrypto too; decided with realCrypto incl. the full secp256k1 computation; sampled out)",
+        all.len(),
+        n_heavy,
+        heavy.len(),
+        stride,
+        light.len(),
+        RCE.with(|c| c.get())
+    ));
+    for (ci, chunk) in picked.chunks(200).enumerate() {
+        ses.begin_case(sut, &header(&format!("secp-stream-{ci}"), 0, false, 0, 0));
+        for (i, (h, sg)) in chunk.iter().enumerate() {
+            // `pk`: none / one of the generated keys (33 or 65 bytes) / the compressed form of the key the independent route recovers
+            let pk: Option<Vec<u8>> = match (ci + i) % 4 {
+                0 if !pks.is_empty() => Some(pks[(ci * 7 + i) % pks.len()].clone()),
+                1 => sg.split_last().and_then(|(v, rs)| {
+                    let h32: &[u8; 32] = h.as_slice().try_into().ok()?;
+                    let key = recover_manual(h32, rs, recid_of(*v)?)?;
+                    let ep = k256::EncodedPoint::from_bytes(&key).ok()?;
+                    let q = Option::<AffinePoint>::from(<AffinePoint as k256::elliptic_curve::sec1::FromEncodedPoint<k256::Secp256k1>>::from_encoded_point(&ep))?;
+                    Some(q.to_encoded_point(true).as_bytes().to_vec())
+                }),
+                _ => None,
+            };
+            let o = ses.step(sut, &secp_line(h, sg, pk.as_deref()));
+            let c = secp_class(&o);
+            ses.count(&format!("secp-stream:{c}"));
+            ses.mark(format!("secp:stream:{c}:len{}", sg.len().min(70)));
+        }
+        ses.end_case();
+    }
+}
+
 fn main() {
     let mut ses = Session::new("C16");
-    let mut sut = S { w: None, header: String::new(), log: vec![], pending: None };
+    let mut sut = S { w: None, header: String::new(), log: vec![], pending: None, seen: BTreeSet::new() };
     if ses.maybe_replay(&mut sut) {
         ses.finish(&mut sut);
     }
@@ -1797,13 +2135,13 @@ fn main() {
         let good = sign(&k, &text, false);
         let vline = |text: &str, sig: &[u8], signer: &str| format!("verify text={} sig={} signer={}", hxs(text), hx(sig), hxs(signer));
         let o = ses.step(&mut sut, &vline(&text, &good, &k.eth));
-        assert_eq!(o, "ok 1", "a freshly made signature must verify");
+        assert_eq!(vcls(&o), "ok1", "a freshly made signature must verify");
         ses.mark("verify:valid:ok1");
         for v in 0..=255u8 {
             let mut s = good.clone();
             s[64] = v;
             let o = ses.step(&mut sut, &vline(&text, &s, &k.eth));
-            ses.mark(format!("verify:v{}:{}", if recid_of(v).is_some() { v.to_string() } else { "other".into() }, o.replace(' ', "")));
+            ses.mark(format!("verify:v{}:{}", if recid_of(v).is_some() { v.to_string() } else { "other".into() }, vcls(&o)));
         }
         for len in 0..=130usize {
             let s: Vec<u8> = (0..len).map(|i| if i < 65 { good[i] } else { 27 }).collect();
@@ -1813,7 +2151,7 @@ fn main() {
             }
             for x in [s, s2] {
                 let o = ses.step(&mut sut, &vline(&text, &x, &k.eth));
-                ses.mark(format!("verify:len{}:{}", if len == 65 { "65" } else if len < 65 { "short" } else { "long" }, o.replace(' ', "")));
+                ses.mark(format!("verify:len{}:{}", if len == 65 { "65" } else if len < 65 { "short" } else { "long" }, vcls(&o)));
             }
         }
         for bit in 0..(64 * 8) {
@@ -1823,25 +2161,25 @@ fn main() {
             let mut s = good.clone();
             s[bit / 8] ^= 1 << (bit % 8);
             let o = ses.step(&mut sut, &vline(&text, &s, &k.eth));
-            ses.mark(format!("verify:bitflip:{}", o.replace(' ', "")));
+            ses.mark(format!("verify:bitflip:{}", vcls(&o)));
         }
         let o = ses.step(&mut sut, &vline(&text, &good, &k2.eth));
-        ses.mark(format!("verify:other-signer:{}", o.replace(' ', "")));
+        ses.mark(format!("verify:other-signer:{}", vcls(&o)));
         let o = ses.step(&mut sut, &vline(&format!("{text}."), &good, &k.eth));
-        ses.mark(format!("verify:other-message:{}", o.replace(' ', "")));
+        ses.mark(format!("verify:other-message:{}", vcls(&o)));
         let o = ses.step(&mut sut, &vline(&text, &sign(&k2, &text, false), &k.eth));
-        ses.mark(format!("verify:other-key:{}", o.replace(' ', "")));
+        ses.mark(format!("verify:other-key:{}", vcls(&o)));
         let o = ses.step(&mut sut, &vline(&text, &malleate(&good, true), &k.eth));
-        ses.mark(format!("verify:high-s-flipped-v:{}", o.replace(' ', "")));
+        ses.mark(format!("verify:high-s-flipped-v:{}", vcls(&o)));
         let o = ses.step(&mut sut, &vline(&text, &malleate(&good, false), &k.eth));
-        ses.mark(format!("verify:high-s-same-v:{}", o.replace(' ', "")));
+        ses.mark(format!("verify:high-s-same-v:{}", vcls(&o)));
         let o = ses.step(&mut sut, &vline(&text, &sign(&k, &text, true), &k.eth));
-        ses.mark(format!("verify:raw-v:{}", o.replace(' ', "")));
+        ses.mark(format!("verify:raw-v:{}", vcls(&o)));
         let o = ses.step(&mut sut, &vline(&text, &good, &format!("0x{}", k.eth[2..].to_uppercase())));
-        ses.mark(format!("verify:upper-signer:{}", o.replace(' ', "")));
+        ses.mark(format!("verify:upper-signer:{}", vcls(&o)));
         for i in 0..6 {
             let o = ses.step(&mut sut, &vline(&text, &good, &malformed_eth(&k.eth, i)));
-            ses.mark(format!("verify:malformed-signer{i}:{}", o.replace(' ', "")));
+            ses.mark(format!("verify:malformed-signer{i}:{}", vcls(&o)));
         }
         // r or s out of range / zero
         for (r0, s0) in [(0u8, 1u8), (1, 0), (255, 1), (1, 255)] {
@@ -1849,7 +2187,7 @@ fn main() {
             s.extend(vec![s0; 32]);
             s.push(27);
             let o = ses.step(&mut sut, &vline(&text, &s, &k.eth));
-            ses.mark(format!("verify:degenerate-rs:{}", o.replace(' ', "")));
+            ses.mark(format!("verify:degenerate-rs:{}", vcls(&o)));
         }
     }
     ses.end_case();
@@ -2301,9 +2639,13 @@ fn main() {
         let n_ops = rng.range(10, 60);
         run_world_case(&mut ses, &mut sut, &mut rng, &cx, i, n_ops);
     }
+    // ------------------------------------------------------------------ 14. secp256k1 inside the model (round 5)
+    secp_stream(&mut ses, &mut sut, &mut rng);
+
     if let Ok(p) = std::env::var("C16_DUMP_CLASSES") {
         std::fs::write(p, ses.classes.iter().cloned().collect::<Vec<_>>().join("\n")).ok();
     }
+    ses.note("round 5: secp256k1 is also computed inside the model (LP.Secp, Lean): `secp` lines compare deps.api recover / verify / address with the Lean values from the bytes; `rc=` on claim and verify lines compares the model's verdict under realCrypto (no witness) with its witnessed verdict");
     ses.note("signatures: real secp256k1 (k256) personal-sign signatures; witness = hand-written ecrecover / ECDSA verification on k256 group arithmetic + sha3 (independent protocol code over the same curve library), compared with deps.api through the model");
     ses.note("mutation kinds per claim: valid (v=27/28, v=0/1, upper-case hex), replay for another wallet, another key, bit flip, wrong length, every v, non-hex, high-S (both parities), other message, other casing of the address, malformed listed address, no envelope");
     ses.finish(&mut sut);
